@@ -85,6 +85,14 @@ func c02ops() []c02op {
 		{"closure-then-shadowing-let-in-let", []int{mSeq}, toL, func(a []string, c int) string {
 			return f("(let [s %s g (keepfn! (fn [] s) s)] (let [s (conj s %d)] (list (g) s)))", a[0], c)
 		}, nil},
+		// a handler whose catch symbol has the name of a binding of the frame the try stands in: the binding
+		// (and a closure made over it before) is as it was once the handler is done
+		{"catch-under-the-name-of-a-binding", []int{mSeq | mM | mS}, same, func(a []string, c int) string {
+			return f("(do (try (throw %d) (catch %s (str %s))) %s)", c, a[0], a[0], a[0])
+		}, nil},
+		{"catch-under-the-name-of-a-let-binding", []int{mSeq | mM | mS}, same, func(a []string, c int) string {
+			return f("(let [s %s g (keepfn! (fn [] s) s)] (try (throw %d) (catch s (keep! s))) (try (throw {:code %d}) (catch s 0)) (g) s)", a[0], c, c)
+		}, nil},
 		// an error object made from a bound map, then marshalled / caught and looked at
 		{"marshal-error-of-map", []int{mM}, same, func(a []string, c int) string {
 			return f("(do (try (hash-map (new-error %s)) (catch e 0)) (try (throw %s) (catch e (str e))) %s)", a[0], a[0], a[0])
